@@ -24,3 +24,16 @@ extend("C15", "Added: insignificant whitespace around the whole document, scalar
 extend("C17", "Added: mutation respell-over (both canonically equivalent spellings of one name present) and number-like text (NaN, Inf, 0x10, ...) in string tokens / items at number positions.")
 extend("C19", "Added: PathSet histories over families of 6..10 sibling paths that share one hash bucket. " + _LONG)
 extend("C20", "Added: history/stdlib (chains of standard-library calls that assemble result types from their arguments' type internals, and placeholders sharing a live value's type object, fingerprints of all live values checked after every step); purity/repeat over sets whose members tie in the iteration order without being equal (one real number at two precisions).")
+
+# after the sixth/seventh round
+extend("C02", "Sets whose members hold an empty collection of placeholder element type.")
+extend("C05", "Set candidates holding unknown members (final length anywhere in 1..n).")
+extend("C06", "ValueSet builders and their copies go on being used (removals in the middle of buckets) after they were wrapped as set values.")
+extend("C07", "Attribute names ending in backslashes; 'no optional attributes' said with an empty non-nil list.")
+extend("C09", "Half of the tuple inputs are library-made types (the type of slice(unknown longer tuple, 0, n)) sharing storage with a longer live type that is re-read after unification.")
+extend("C10", "Every parameter description returned by Params() / VarParam() is overwritten with the most permissive one before the call.")
+extend("C14", "parseint of integers far beyond 512 bits.")
+extend("C15", "Every decoded document is round-tripped again under the dynamic placeholder (library-made types).")
+extend("C16", "roundtrip/large: unknown lists / sets / maps refined to exactly n members, not-null or nullable.")
+for _p in ("C01", "C04", "C06", "C11", "C12"):
+    extend(_p, "Strings may hold the ASCII signs that compose with a following U+0338 (= < >); safe prefixes are also cut from the string as written, before normalisation.")
